@@ -76,6 +76,9 @@ def _chunks(xs, n):
     return [xs[i:i + k] for i in range(0, len(xs), k)]
 
 
+BRACE_SYMS = {200: '{0}', 201: '{1}', 202: '}{', 203: '{', 204: '}', 205: '{{0}}', 206: '{2}'}
+
+
 class Sides:
     """reqs are (op, args) pairs; args is the token string after the flags field"""
 
@@ -86,6 +89,11 @@ class Sides:
         self.shipped = G.shipped_notations(self.reflect)
         self.pre_model, self.pre_impl = [], []
         for name, i in sorted(self.symtab.items(), key=lambda kv: kv[1]):
+            line = f'SYM {i} {len(name)} ' + ' '.join(str(ord(c)) for c in name)
+            self.pre_model.append(line)
+            self.pre_impl.append(line)
+        # symbols whose names look like format placeholders (symbol names are arbitrary strings)
+        for i, name in BRACE_SYMS.items():
             line = f'SYM {i} {len(name)} ' + ' '.join(str(ord(c)) for c in name)
             self.pre_model.append(line)
             self.pre_impl.append(line)
